@@ -241,7 +241,13 @@ def run_fill(model, sc: Scenario, ctx=None):
         return parse_affine(a[0])
 
     def symbols(ev, a, k):
-        return sp.Symbol(a[0])
+        k.all()
+        names = a[0]
+        if isinstance(names, Tup):
+            return Tup([sp.Symbol(x) for x in names.items], "tuple")
+        if isinstance(names, str) and ("," in names or " " in names.strip()):
+            return Tup([sp.Symbol(x) for x in names.replace(",", " ").split()], "tuple")
+        return sp.Symbol(names)
 
     def lineq(ev, a, k):
         eqs = ev.iterate(a[0], None, None)
@@ -279,6 +285,20 @@ def run_fill(model, sc: Scenario, ctx=None):
             return DataMat([v.get((i, 0)) for i in range(v.shape[0])])
         raise AnalysisError("numpy.broadcast_to of an unsupported value")
 
+    def repeat(ev, a, k):
+        # numpy.repeat(column, nvol, axis=1) / numpy.tile(column, (1, nvol)): the constant column broadcast over the volumes
+        v = a[0]
+        axis = k.get("axis", a[2] if len(a) > 2 else None)
+        if isinstance(v, ArrV) and len(v.shape) == 2 and v.shape[1] == 1 and axis is not None and _const_int(axis) == 1:
+            return DataMat([v.get((i, 0)) for i in range(v.shape[0])])
+        raise AnalysisError("numpy.repeat of an unsupported value / axis in fill_cij")
+
+    def matrix2numpy(ev, a, k):
+        k.all()
+        if isinstance(a[0], ArrV):
+            return a[0]
+        raise AnalysisError("sympy.matrix2numpy of something that is not the relation matrix")
+
     def concatenate(ev, a, k):
         parts = ev.iterate(a[0], None, None)
         axis = k.get("axis", a[1] if len(a) > 1 else sp.Integer(0))
@@ -313,7 +333,34 @@ def run_fill(model, sc: Scenario, ctx=None):
         return Tup([x, num_const(resid), sp.Integer(sc.rank), sp.Symbol("SV")])
 
     def num_const(v):
-        return v if is_sym(v) else sp.nsimplify(v, rational=True)
+        return ResidV(v if is_sym(v) else sp.nsimplify(v, rational=True))
+
+    class ResidV:
+        """the residuals lstsq reports: one non-negative number per right-hand-side column (volume), all equal to the
+        scenario's value"""
+
+        def __init__(self, value):
+            self.value = value
+
+        def sym_compare(self, ev, op, other, reflected, n, mod):
+            a_, b_ = (other, self.value) if reflected else (self.value, other)
+            return ev.compare(op, a_, b_, n, mod)
+
+        def sym_iter(self, ev, n, mod):
+            return [self.value, self.value]
+
+        def sym_any(self, ev, n, mod):
+            return ev.truth(self.value, n, mod)
+
+        def sym_getattr(self, ev, name, node, mod):
+            if name in ("max", "min", "sum", "mean"):
+                return BoundLib("identity_method", self.value)
+            if name in ("any", "all"):
+                return BoundLib("identity_method", self)
+            raise ev.err(f"residuals attribute {name}", node, mod)
+
+        def sym_subscript(self, ev, idx, n, mod):
+            return self.value
 
     def allclose(ev, a, k):
         x = a[0]
@@ -343,6 +390,10 @@ def run_fill(model, sc: Scenario, ctx=None):
 
     def isclose(ev, a, k):
         m = a[0]
+        k.get("rtol")
+        k.get("equal_nan")
+        if "atol" in k or len(a) > 3:
+            sc.drop_tests.append(a[3] if len(a) > 3 else k.get("atol"))
         if isinstance(m, ColsMat) and is_sym(a[1]) and a[1] == 0:
             out = ColsMat(m.names, m.vals)
             out.is_bool = True
@@ -395,7 +446,8 @@ def run_fill(model, sc: Scenario, ctx=None):
         "cij.data:get_data_fname": get_data_fname, "builtins.open": open_,
         "sympy.parsing.sympy_parser.parse_expr": parse_expr, "sympy.symbols": symbols, "sympy.Symbol": symbols,
         "sympy.linear_eq_to_matrix": lineq, "numpy.array": np_array, "numpy.broadcast_to": broadcast_to,
-        "numpy.concatenate": concatenate, "numpy.linalg.lstsq": lstsq, "numpy.allclose": allclose,
+        "numpy.concatenate": concatenate, "numpy.vstack": concatenate, "numpy.row_stack": concatenate, "numpy.repeat": repeat, "sympy.matrix2numpy": matrix2numpy,
+        "numpy.linalg.lstsq": lstsq, "numpy.allclose": allclose,
         "numpy.isclose": isclose, "boolmat.any": boolred("any"), "boolmat.all": boolred("all"),
         "DataFrame.items": df_items, "DataFrame.drop": df_drop, "identity": lambda ev, a, k: a[0],
         "identity_method": lambda ev, a, k: a[0], "ndarray.astype": astype,
